@@ -411,6 +411,7 @@ def multiworker_case(draw):
     cfg["delays_ms"] = [draw(st.sampled_from([0, 10, 25, 40])) for _ in range(4)]
     cfg["reuse_buffers"] = False
     cfg["prior_calls_on_same_arrays"] = False
+    cfg["prior_run_override"] = None        # the per-task delays are armed for the call under test
     return cfg
 
 
